@@ -53,6 +53,8 @@ type recStores struct {
 	mu  sync.Mutex
 	cur *memStores
 	log []func(*memStores)
+	// base: contents the stores had before the run (always survive a truncation)
+	base []func(*memStores)
 	// crash-relevant writes only (index into log)
 	points []int
 	rounds map[hr]struct{}
@@ -88,6 +90,10 @@ func (r *recStores) rebuild(h tmconsensus.HashScheme, n int) *recStores {
 		upto = r.points[n-1]
 	}
 	out := newRecStores(h)
+	for _, f := range r.base {
+		f(out.cur)
+	}
+	out.base = r.base
 	for i := 0; i < upto; i++ {
 		r.log[i](out.cur)
 	}
